@@ -312,7 +312,25 @@ func (g *advGen) sigJSON() string {
 	case 6:
 		return `[1,2,3]`
 	}
+	switch g.rng.Intn(6) {
+	case 0:
+		return `{"signature":"AAAA","algorithm":"ecdsaWithSha256","certificate":""}`
+	case 1:
+		return `{"signature":"AAAA","algorithm":"ecdsaWithSha256","certificate":"   \n "}`
+	case 2:
+		return `{"signature":"","algorithm":"","certificate":""}`
+	case 3:
+		return `{"signature":"AAAA","algorithm":"sha256WithRsaEncryption","certificate":"-----BEGIN CERTIFICATE-----\n-----END CERTIFICATE-----"}`
+	case 4:
+		return sigJSONOf(sigRecord{Signature: "AAAA", Algorithm: "ecdsaWithSha256", Certificate: sigFixtureECDSA[0].CertPEM})
+	}
 	return `{"signature":"AAAA","algorithm":"sha256WithRsaEncryption","certificate":"-----BEGIN CERTIFICATE-----\nMIIB\n-----END CERTIFICATE-----"}`
+}
+
+// sigRef / sigAddr: small sets, so that stored records, published links and verification queries meet.
+func (g *advGen) sigRef() string { return fmt.Sprintf("%064x", uint64(g.rng.Intn(3))+1) }
+func (g *advGen) sigAddr() string {
+	return kernel.ActorBech(g.w.Clients[g.rng.Intn(2)])
 }
 
 func (g *advGen) refID() string {
@@ -432,9 +450,18 @@ func (g *advGen) genMsg(r *kernel.Run) (sdk.Msg, string, string) {
 		}
 		return &sigtypes.MsgCreateAccount{Creator: pickOwner(), AccAddressString: g.addr(), PubKeyString: pk}, signer, "sig"
 	case 15:
-		return &sigtypes.MsgStoreSignature{Creator: pickOwner(), StorageKey: g.refID(), SignatureJSON: g.sigJSON()}, signer, "sig"
+		key := g.refID()
+		if rng.P(0.7) {
+			// a record stored where VerifySignature will look for it
+			key = hexHash(g.sigAddr() + ":" + g.sigRef())
+		}
+		return &sigtypes.MsgStoreSignature{Creator: pickOwner(), StorageKey: key, SignatureJSON: g.sigJSON()}, signer, "sig"
 	default:
-		return &sigtypes.MsgPublishReferencePayloadLink{Creator: pickOwner(), Key: g.refID(), Value: g.name()}, signer, "sig"
+		key := g.refID()
+		if rng.P(0.7) {
+			key = hexHash(g.sigRef())
+		}
+		return &sigtypes.MsgPublishReferencePayloadLink{Creator: pickOwner(), Key: key, Value: g.name()}, signer, "sig"
 	}
 }
 
@@ -490,7 +517,9 @@ type marshaler interface{ Marshal() ([]byte, error) }
 
 func (g *advGen) genQuery(r *kernel.Run) *kernel.Query {
 	path := queryMethods[g.rng.Intn(len(queryMethods))]
-	if g.rng.Intn(5) == 0 {
+	if g.rng.Intn(6) == 0 {
+		path = "/chain4energy.c4echain.cfesignature.Query/VerifySignature"
+	} else if g.rng.Intn(5) == 0 {
 		// queries without arguments depend on the state only: ask them often, right after every kind of block
 		path = []string{"/chain4energy.c4echain.cfeminter.Query/Inflation", "/chain4energy.c4echain.cfevesting.Query/VestingsSummary", "/chain4energy.c4echain.cfedistributor.Query/States", "/chain4energy.c4echain.cfeminter.Query/State"}[g.rng.Intn(4)]
 	}
@@ -506,6 +535,9 @@ func (g *advGen) genQuery(r *kernel.Run) *kernel.Query {
 		req = &sigtypes.QueryCreateReferencePayloadLinkRequest{ReferenceId: g.refID(), PayloadHash: g.name()}
 	case "VerifySignature":
 		req = &sigtypes.QueryVerifySignatureRequest{ReferenceId: g.refID(), TargetAccAddress: g.addr()}
+		if g.rng.P(0.8) {
+			req = &sigtypes.QueryVerifySignatureRequest{ReferenceId: g.sigRef(), TargetAccAddress: g.sigAddr()}
+		}
 	case "GetAccountInfo":
 		req = &sigtypes.QueryGetAccountInfoRequest{AccAddressString: g.addr()}
 	case "VerifyReferencePayloadLink":
@@ -687,6 +719,7 @@ func minterParamsSane(p mintertypes.Params) (ok bool) {
 			ok = false
 		}
 	}()
+	p.Minters = append([]*mintertypes.Minter(nil), p.Minters...) // Validate sorts in place: keep the caller's order
 	if p.Validate() != nil {
 		return true // will be rejected anyway
 	}
